@@ -98,3 +98,152 @@ Example C05_example_load :
                        (VStr (S "junk"), VNone)])
   = Ok (VInst ex_c [VSeq SSet false [VInt 2; VInt 3]; VSeq STuple false [VStr []; VBool true]; VNone]).
 Proof. reflexivity. Qed.
+
+(* ======================================================================================
+   The v1 engine.  Model: coq/model/V1Base.v V1Gen.v V1Eval.v (shared with C02 / C14: the
+   loader specification `load_v1` / `load_cls` and the generated-code evaluator `run_main`);
+   conformance: coq/model/V1Conf.v; proofs: coq/proofs/V1ConfProofs.v.
+   (From here on `ty`, `pv`, `Ok` ... are those of V1Base.) *)
+From DW Require Import PyStr V1Base V1Gen V1Errors V1Eval V1GenNames V1Conf V1ConfProofs.
+From Coq Require Import List Bool.
+Import ListNotations.
+
+(* Full strength: for EVERY class table (cyclic ones included), EVERY annotation of the v1 grammar,
+   EVERY behaviour of the leaf conversions that returns values of the leaf's own type (leaf_sound:
+   the one premise, audited on every run on the oracle tables), EVERY budget and EVERY input value
+   (no well-typedness hypothesis): whatever the v1 loader specification returns is a value of the
+   annotated type - exact container kind, element types, hashable set elements and dict keys, fixed-tuple
+   arity, NamedTuple, TypedDict required / declared keys, Literal by value and type, Optional,
+   Union member, nested dataclass with every init field.  The strict relation, with ONE addition (dl = true):
+   a field whose key is absent holds the default its class DECLARES (a declared default that is not a value
+   of the annotation is the declaration, not the loader - the wf_ty hypothesis of the default engine).
+   None of the leniencies of the default engine (None annotation, short tuples, Union[None, X]) exists in v1. *)
+Theorem C05_v1_conforms :
+  forall Or ct, leaf_sound Or ->
+  forall n t v x, load_v1 Or ct n t v = Ok x -> conforms_v1 ct true n t x = true.
+Proof. exact load_v1_conforms. Qed.
+Print Assumptions C05_v1_conforms.
+
+(* fromdict(cls, o) *)
+Theorem C05_v1_cls_conforms :
+  forall Or ct, leaf_sound Or ->
+  forall n c o x, load_cls Or ct n c o = Ok x -> conforms_cls ct true n c x = true.
+Proof. exact load_cls_conforms. Qed.
+Print Assumptions C05_v1_cls_conforms.
+
+(* The GENERATED CODE: generate the loader of class c, run it on any document; what it returns is a
+   conforming instance.  `_partial`: under the decidable premise of compiler correctness (C02_gen_sound):
+   the function names in the generator's final recursion guard are pairwise distinct - it fails only
+   for two different NamedTuple / TypedDict / dataclass types of one __name__ (open finding F9 of C02). *)
+Theorem C05_v1_code_conforms_partial :
+  forall Or ct gn c f g, leaf_sound Or ->
+  gen_main ct gn c = Ok (f, g) -> names_distinct g = true ->
+  forall n o x, run_main Or ct gn n c o = Ok x -> conforms_cls ct true n c x = true.
+Proof.
+  intros Or ct gn c f g Hl Hg Hd.
+  exact (run_main_conforms Or ct gn c f g Hl Hg (names_distinct_coherent ct gn c f g Hg Hd)).
+Qed.
+Print Assumptions C05_v1_code_conforms_partial.
+
+(* the same under the weaker premise `coherent` (every guard entry's function was generated for its type) *)
+Theorem C05_v1_code_conforms_coherent_partial :
+  forall Or ct gn c f g, leaf_sound Or ->
+  gen_main ct gn c = Ok (f, g) -> coherent g = true ->
+  forall n o x, run_main Or ct gn n c o = Ok x -> conforms_cls ct true n c x = true.
+Proof. exact run_main_conforms. Qed.
+Print Assumptions C05_v1_code_conforms_coherent_partial.
+
+(* The premise is decidable on the finite oracle tables the harness evaluates the model with
+   (`table_sound`, printed by case_conf on every run), so on those the statement is closed. *)
+Theorem C05_v1_table_oracle :
+  forall tbl dt, table_sound tbl = true -> leaf_sound (table_oracle tbl dt).
+Proof. exact table_sound_leaf. Qed.
+Print Assumptions C05_v1_table_oracle.
+
+(* ... and it is needed: with a leaf conversion that passes its input through, the faithful
+   specification returns a non-conforming value. *)
+Definition id_oracle : oracle := {| conv := fun _ _ v => Ok v; dumpleaf := fun v => v |}.
+Theorem C05_v1_leaf_premise_needed :
+  exists Or t v x, load_v1 Or [] 0 t v = Ok x /\ conforms_v1 [] true 0 t x = false.
+Proof. exists id_oracle, (TSeq KList (TLeaf LInt)), (VSeq KList [VStr (S "a")]), (VSeq KList [VStr (S "a")]). split; reflexivity. Qed.
+Print Assumptions C05_v1_leaf_premise_needed.
+
+(* ---- non-vacuity ------------------------------------------------------------------------ *)
+(* a toy oracle with the premise: int / str / bool load as themselves, a string loads as the int
+   that is its length *)
+Definition toy1 : oracle :=
+  {| conv := fun l _ v => match l, v with
+                          | LInt, VInt _ | LStr, VStr _ | LBool, VBool _ => Ok v
+                          | LInt, VStr s => Ok (VInt (Z.of_nat (List.length s)))
+                          | _, _ => bare "ValueError" end;
+     dumpleaf := fun v => v |}.
+Example C05_v1_toy_sound : leaf_sound toy1.
+Proof.
+  intros l o v x H. cbn in H.
+  destruct l; try discriminate; destruct v; try discriminate; inversion H; subst; reflexivity.
+Qed.
+
+Definition fd1 (n : string) (t : ty) (d : option pv) : fdecl :=
+  {| f_name := S n; f_ty := t; f_default := d; f_keys := [S n]; f_dkey := S n |}.
+Definition tI := TLeaf LInt.
+Definition tS := TLeaf LStr.
+(* class 0 = Node: self-referential through Optional and a list; a Union, a Literal, a fixed tuple,
+   a NamedTuple, a TypedDict with an optional key, a dict of sets, a defaulted field *)
+Definition ex_ct : ctable :=
+  [{| c_name := S "Node";
+      c_fields := [fd1 "ident" (TUnion (TCons [] tI (TCons [] (TSeq KList tS) TNil))) None;
+                   fd1 "mode" (TLit [LitStr (S "a"); LitInt 1]) None;
+                   fd1 "pair" (TTuple (TCons [] tI (TCons [] (TOpt tS) TNil))) None;
+                   fd1 "pt" (TNamed (S "Pt") (TCons (S "xx") tI (TCons (S "yy") tI TNil))) None;
+                   fd1 "td" (TTyped (S "Td") (TCons (S "rk") tI TNil) (TCons (S "ok") tS TNil)) None;
+                   fd1 "tags" (TDict None tS (TSeq KSet tI)) None;
+                   fd1 "kids" (TSeq KList (TData 0)) (Some (VSeq KList []));
+                   fd1 "next" (TOpt (TData 0)) (Some VNone)] |}].
+Definition ex_leafdoc : pv :=
+  VDict None [(VStr (S "ident"), VSeq KList [VStr (S "p")]); (VStr (S "mode"), VInt 1);
+              (VStr (S "pair"), VSeq KList [VStr (S "1"); VNone; VInt 7]);
+              (VStr (S "pt"), VSeq KList [VInt 1; VInt 2]);
+              (VStr (S "td"), VDict None [(VStr (S "zz"), VNone); (VStr (S "rk"), VStr (S "1"))]);
+              (VStr (S "tags"), VDict None [(VStr (S "k"), VSeq KList [VInt 2; VInt 2; VStr (S "1")])])].
+Definition ex_doc : pv :=
+  match ex_leafdoc with
+  | VDict dd kvs => VDict dd (kvs ++ [(VStr (S "next"), ex_leafdoc); (VStr (S "junk"), VInt 0)])
+  | v => v
+  end.
+Definition ex_leaf : pv :=
+  VInst 0 [(S "ident", VSeq KList [VStr (S "p")]); (S "mode", VInt 1);
+           (S "pair", VSeq KTuple [VInt 1; VNone]); (S "pt", VNamed (S "Pt") [VInt 1; VInt 2]);
+           (S "td", VDict None [(VStr (S "rk"), VInt 1)]);
+           (S "tags", VDict None [(VStr (S "k"), VSeq KSet [VInt 2; VInt 1])]);
+           (S "kids", VSeq KList []); (S "next", VNone)].
+(* a malformed-but-accepted document loads (coercions, extra tuple element, unknown keys, duplicates) ... *)
+Example C05_v1_example_load :
+  load_cls toy1 ex_ct 6 0 ex_doc =
+  Ok (match ex_leaf with
+      | VInst c fs => VInst c (firstn 7 fs ++ [(S "next", ex_leaf)])
+      | v => v end).
+Proof. vm_compute. reflexivity. Qed.
+(* ... the generator's names are distinct, so the code theorem applies ... *)
+Example C05_v1_example_hyps :
+  exists f g, gen_main ex_ct 2 0 = Ok (f, g) /\ names_distinct g = true.
+Proof. vm_compute. eexists. eexists. split; reflexivity. Qed.
+(* ... and the relation is not trivially true: wrong concrete types, arity, Literal type, missing
+   required key, undeclared key, wrong class are all rejected *)
+Example C05_v1_conforms_rejects :
+  conforms_cls ex_ct true 6 0 ex_leaf = true /\
+  conforms_v1 ex_ct true 6 tI (VBool true) = false /\
+  conforms_v1 ex_ct true 6 (TSeq KList tI) (VSeq KTuple [VInt 1]) = false /\
+  conforms_v1 ex_ct true 6 (TTuple (TCons [] tI (TCons [] (TOpt tS) TNil))) (VSeq KTuple [VInt 1]) = false /\
+  conforms_v1 ex_ct true 6 (TLit [LitInt 1]) (VBool true) = false /\
+  conforms_v1 ex_ct true 6 (TUnion (TCons [] tI (TCons [] tS TNil))) VNone = false /\
+  conforms_v1 ex_ct true 6 (TTyped (S "Td") (TCons (S "rk") tI TNil) (TCons (S "ok") tS TNil)) (VDict None []) = false /\
+  conforms_v1 ex_ct true 6 (TTyped (S "Td") (TCons (S "rk") tI TNil) TNil)
+              (VDict None [(VStr (S "rk"), VInt 1); (VStr (S "zz"), VInt 1)]) = false /\
+  conforms_v1 ex_ct true 6 (TSeq KSet (TSeq KList tI)) (VSeq KSet [VSeq KList []]) = false /\
+  conforms_v1 ex_ct true 6 (TData 0) (VInst 1 []) = false /\
+  conforms_v1 ex_ct true 6 (TOpt (TData 0)) (VDict None []) = false /\
+  (* a declared default is admitted only with dl = true, and only for its own field *)
+  conforms_v1 [{| c_name := S "D"; c_fields := [fd1 "x" tI (Some VNone)] |}] true 2 (TData 0) (VInst 0 [(S "x", VNone)]) = true /\
+  conforms_v1 [{| c_name := S "D"; c_fields := [fd1 "x" tI (Some VNone)] |}] false 2 (TData 0) (VInst 0 [(S "x", VNone)]) = false /\
+  defaults_conformb ex_ct 6 = true.
+Proof. vm_compute. repeat split. Qed.
